@@ -260,6 +260,13 @@ func TestC03(t *testing.T) {
 					for _, al := range n.Aliases {
 						bad = append(bad, append(append([]string(nil), n.Path...), al))
 					}
+					// the field names of the underlying dag-pb node are not entries
+					for _, fld := range []string{"Links", "Data", "Hash", "Links/0", "Links/0/Hash", "Data/x"} {
+						segs := strings.Split(fld, "/")
+						if n.isDir() && n.child(segs[0]) == nil {
+							bad = append(bad, append(append([]string(nil), n.Path...), segs...))
+						}
+					}
 					for _, dot := range []string{".", ".."} {
 						if n.isDir() && n.child(dot) == nil {
 							bad = append(bad, append(append([]string(nil), n.Path...), dot))
